@@ -15,6 +15,29 @@ pub static mut DRAWS: usize = 0;
 pub static mut LAST: [[u8; 64]; 4] = [[0; 64]; 4];
 pub static mut LAST_LEN: [usize; 4] = [0; 4];
 
+/// when set, 48-byte draws are assumed to be valid P-384 scalars (0 < d < n): paseto-v3's key
+/// generation retries in an unbounded loop otherwise; the excluded fraction of RNG outputs is 2^-190
+pub static mut ASSUME_48_IS_P384_SCALAR: bool = false;
+const P384_ORDER: [u8; 48] = [
+    0xff, 0xff, 0xff, 0xff, 0xff, 0xff, 0xff, 0xff, 0xff, 0xff, 0xff, 0xff, 0xff, 0xff, 0xff, 0xff, 0xff, 0xff, 0xff, 0xff, 0xff, 0xff, 0xff, 0xff, 0xc7, 0x63, 0x4d, 0x81, 0xf4,
+    0x37, 0x2d, 0xdf, 0x58, 0x1a, 0x0d, 0xb2, 0x48, 0xb0, 0xa7, 0x7a, 0xec, 0xec, 0x19, 0x6a, 0xcc, 0xc5, 0x29, 0x73,
+];
+fn p384_scalar_ok(b: &[u8]) -> bool {
+    let mut nonzero = false;
+    let mut less = false;
+    let mut decided = false;
+    let mut i = 0;
+    while i < 48 {
+        nonzero |= b[i] != 0;
+        if !decided && b[i] != P384_ORDER[i] {
+            less = b[i] < P384_ORDER[i];
+            decided = true;
+        }
+        i += 1;
+    }
+    nonzero && decided && less
+}
+
 pub fn fill(dest: &mut [u8]) -> Result<(), Error> {
     unsafe {
         let d = DRAWS;
@@ -28,6 +51,9 @@ pub fn fill(dest: &mut [u8]) -> Result<(), Error> {
             kani::assume(dest.len() <= 64);
             let r: [u8; 64] = kani::any();
             let n = dest.len();
+            if n == 48 && ASSUME_48_IS_P384_SCALAR {
+                kani::assume(p384_scalar_ok(&r[..48]));
+            }
             dest.copy_from_slice(&r[..n]);
             if d < 4 {
                 LAST[d] = r;
